@@ -207,6 +207,7 @@ type callRec struct {
 
 type outcome struct {
 	Key        string    `json:"key"`     // "" when the oracle holds
+	Keys       []string  `json:"keys,omitempty"` // one per leaked function for a pure leak
 	Symptom    string    `json:"symptom"` // call-hang | close-hang | errchan-open | goroutine-leak
 	What       string    `json:"what"`
 	At         string    `json:"at"`
@@ -585,6 +586,7 @@ func runCaseIgnoring(scn *scenario, cs caseSpec, bound time.Duration, ignore map
 	if hsErr != nil {
 		out.What = "harness: handshake failed: " + hsErr.Error()
 		out.Key = "harness:handshake"
+		out.Keys = []string{out.Key}
 		return out
 	}
 	r.logf("handshake done")
@@ -609,6 +611,7 @@ func runCaseIgnoring(scn *scenario, cs caseSpec, bound time.Duration, ignore map
 		_, callers := libraryGoroutines(base, ignore)
 		out.Dump = dumpOf(callers, 6)
 		out.Key = r.key(pos, "", out.Symptom)
+		out.Keys = []string{out.Key}
 		return out
 	}
 	if ncE != nil {
@@ -697,13 +700,26 @@ func runCaseIgnoring(scn *scenario, cs caseSpec, bound time.Duration, ignore map
 		}
 		return ""
 	}
-	keyOf := func(symptom string) string {
+	// keysOf: the finding keys of a symptom. A pure leak (every call and Close()
+	// returned) gives one key per leaked function: the leaked function is the
+	// precise locator; which fault ended the connection does not matter.
+	keysOf := func(symptom string) []string {
 		if strings.HasPrefix(symptom, "goroutine-leak@") {
-			// a pure leak (every call and Close() returned): the leaked function is the
-			// precise locator; which fault ended the connection does not matter
-			return fmt.Sprintf("%s:%s", scn.Proto, symptom)
+			var ks []string
+			for _, f := range strings.Split(strings.TrimPrefix(symptom, "goroutine-leak@"), "+") {
+				ks = append(ks, fmt.Sprintf("%s:goroutine-leak@%s", scn.Proto, f))
+			}
+			return ks
 		}
-		return r.key(pos, variant, symptom)
+		return []string{r.key(pos, variant, symptom)}
+	}
+	allKnown := func(ks []string) bool {
+		for _, k := range ks {
+			if !isKnown(k) {
+				return false
+			}
+		}
+		return true
 	}
 	sleep := 200 * time.Microsecond
 	symptom := ""
@@ -727,7 +743,7 @@ func runCaseIgnoring(scn *scenario, cs caseSpec, bound time.Duration, ignore map
 		if el >= bound {
 			break
 		}
-		if el >= knownBound && closeCalled && symptom != "winding-down" && isKnown != nil && isKnown(keyOf(symptom)) {
+		if el >= knownBound && closeCalled && symptom != "winding-down" && isKnown != nil && allKnown(keysOf(symptom)) {
 			out.BoundMs = int(knownBound / time.Millisecond)
 			break
 		}
@@ -813,10 +829,11 @@ func runCaseIgnoring(scn *scenario, cs caseSpec, bound time.Duration, ignore map
 			out.What += "; " + strings.Join(extra, "; ")
 		}
 		out.Dump = dumpOf(append(append([]gor(nil), callers...), leaks...), 14)
-		out.Key = keyOf(out.Symptom)
+		out.Keys = keysOf(out.Symptom)
 		if out.Symptom == "harness-goroutine-stuck" {
-			out.Key = "harness:goroutine-stuck"
+			out.Keys = []string{"harness:goroutine-stuck"}
 		}
+		out.Key = out.Keys[0]
 		out.What = fmt.Sprintf("%s [%s, call %s, fault %s%s at %s, %s]", out.What, scn.Proto, pos.call, cs.Fault, optEq(variant), pos.at, endMode(cs, peerClosed))
 	}
 	r.mu.Lock()
